@@ -3,7 +3,8 @@
 // arithmetic sites run in the thorough tier); this program is the every-change stand-in because it takes seconds.
 //  (A) PDUHeader::decode / PDU::decode over ALL 2^16 length fields x all 256 first octets x fourth octets {0x00,0x11,0x33,0x77,0xff,0x08,0x80};
 //  (B) VariableID::decode over all 256 length octets (followed by 0 / 8 / 256 octets);
-//  (C) corpus of every PDU kind (both file-size flags, CRC on/off, id widths 1,2,4,8): every truncation, every single-octet
+//  (C) corpus of every PDU kind (both file-size flags, CRC on/off, id widths 1,2,4,8; incl. names / messages / TLV bodies of 254 and 255
+//      octets): every truncation, every single-octet
 //      mutation to {0,1,0x7f,0x80,0xfe,0xff, +1, -1, ^bit}, length/flag fields forced to boundary values;
 //  (D) per-type decoders UserOperation / MetadataTLV / FileStoreRequest / FileStoreResponse / Report on all 1- and 2-octet inputs and on
 //      a pseudo-random sample of longer ones.
@@ -71,6 +72,26 @@ fn corpus() -> Vec<Vec<u8>> {
                 pdu_data_field_length: p.encoded_len(flag), segmentation_control: SegmentationControl::NotPreserved, segment_metadata_flag: SegmentedData::NotPresent,
                 source_entity_id: id(w, 1), transaction_sequence_number: id(w, 2), destination_entity_id: id(w, 3) };
             out.push(PDU { header: h, payload: p }.encode());
+        }
+        // boundary-length fields: names, messages and TLV bodies at 254/255 octets (a length octet that wraps on re-encoding shows up here)
+        if w == 1 || w == 8 {
+            let long_a: String = std::iter::repeat('n').take(255).collect();
+            let long_b: String = std::iter::repeat('m').take(254).collect();
+            let longs = vec![
+                d(Operations::Metadata(MetadataPDU { closure_requested: false, checksum_type: ChecksumType::Modular, file_size: 1, source_filename: long_a.as_str().into(), destination_filename: long_b.as_str().into(), options: vec![] })),
+                d(Operations::Metadata(MetadataPDU { closure_requested: false, checksum_type: ChecksumType::Null, file_size: 0, source_filename: "s".into(), destination_filename: "d".into(),
+                    options: vec![MetadataTLV::MessageToUser(MessageToUser { message_text: vec![0x41; 255] }), MetadataTLV::FlowLabel(FlowLabel { value: vec![7; 255] }),
+                        MetadataTLV::FileStoreRequest(FileStoreRequest { action_code: FileStoreAction::CreateFile, first_filename: long_b.as_str().into(), second_filename: "".into() })] })),
+                d(Operations::Finished(Finished { condition: Condition::NoError, delivery_code: DeliveryCode::Complete, file_status: FileStatusCode::Retained,
+                    filestore_response: vec![FileStoreResponse { action_and_status: FileStoreStatus::RenameFile(RenameStatus::Successful), first_filename: std::iter::repeat('p').take(120).collect::<String>().as_str().into(),
+                        second_filename: std::iter::repeat('q').take(120).collect::<String>().as_str().into(), filestore_message: vec![1, 2, 3] }], fault_location: None })),
+            ];
+            for p in longs {
+                let h = PDUHeader { version: U3::One, pdu_type: PDUType::FileDirective, direction: Direction::ToReceiver, transmission_mode: TransmissionMode::Acknowledged, crc_flag: crc, large_file_flag: flag,
+                    pdu_data_field_length: p.encoded_len(flag), segmentation_control: SegmentationControl::NotPreserved, segment_metadata_flag: SegmentedData::NotPresent,
+                    source_entity_id: id(w, 1), transaction_sequence_number: id(w, 2), destination_entity_id: id(w, 3) };
+                out.push(PDU { header: h, payload: p }.encode());
+            }
         }
         // segmented file data
         let p = PDUPayload::FileData(FileDataPDU::Segmented(SegmentedFileData { record_continuation_state: RecordContinuationState::First, segment_metadata: vec![1, 2], offset: 3, file_data: vec![4, 5] }));
